@@ -16,6 +16,11 @@ INTERVAL = 1_050_000
 TOTAL = 2_099_999_986_350_000
 MAX_ENCODABLE_HEIGHT = 0xFFFFFFFF   # CoinbaseData.height is a 4-byte field
 
+def _repo_root() -> str:
+    import os
+    return os.environ.get("VERIF_REPO", "/repo").rstrip("/")
+
+
 META = {
     "explanation": "Era lemma: for every era k in 0..63 and EVERY height h in [k*I,(k+1)*I) (h symbolic, unbounded inside "
                    "the era) get_block_subsidy(h) == 10^9 // 2^k; for every h >= 64*I it is 0 (h symbolic, no upper bound); "
@@ -91,7 +96,7 @@ def total_supply():
     s = z3.Solver()
     terms = [z3.IntVal(INTERVAL) * (z3.IntVal(INIT) / z3.IntVal(2 ** k)) for k in range(64)]
     total = z3.Sum(terms)
-    docs = open("/repo/docs/params.md").read()
+    docs = open(_repo_root() + "/docs/params.md").read()
     m = re.search(r"([0-9]{1,3}(?:,[0-9]{3})+\.[0-9]{8})", docs)
     docs_total = int(m.group(1).replace(",", "").replace(".", "")) if m else -1
     facts = {
